@@ -772,3 +772,12 @@ Definition run_ops_flat (w : world) (ops : list op) : list Z :=
   flat_map enc_outcome
            (snd (run_ops (fun _ => [(0, 1, 2)%N]) (fun _ _ _ => 0) (fun t => t)
                          w ops)).
+
+(* the same with pixelation (exp table) and a viscosity model (eta table):
+   calls with px_um <> 0, several events, per-event temperatures *)
+Definition run_ops_flat2 (exptab etatab : list (Q * Q)) (w : world)
+           (ops : list op) : list Z :=
+  flat_map enc_outcome
+           (snd (run_ops (fun _ => [(0, 1, 2)%N])
+                         (pxdelta (fun a => lookupq a exptab))
+                         (fun t => lookupq t etatab) w ops)).
